@@ -260,7 +260,7 @@ RlpRows == {RlpBase}
       \cup {[RlpBase EXCEPT !.logsBloom = Fill(256, v), !.nonce = Fill(8, v), !.miner = Fill(20, v)] : v \in {0, 128, 255}}
 RlpOut(r) == [row |-> r, rlp |-> HeaderRlp(r), fields |-> FieldNames \o (IF r.baseFee = <<0 - 1>> THEN <<>> ELSE <<"baseFeePerGas">>)]
 
-SizeEpochs == IF Thorough THEN 0..2060 ELSE {0, 1, 2, 3, 100, 255, 256, 306, 307, 400, 432, 433, 459, 460, 501, 502, 1000, 2047, 2048, 2049}
+SizeEpochs == IF Thorough THEN 0..600 \cup {e \in 601..2060 : e % 16 = 0} \cup 2040..2060 ELSE {0, 1, 2, 3, 100, 255, 256, 306, 307, 400, 432, 433, 459, 460, 501, 502, 1000, 2047, 2048, 2049}
 (* block numbers inside the epoch: first, last (epoch boundary +-1 is first of e / last of e-1) *)
 SizeRows == {[epoch |-> e] : e \in SizeEpochs}
 SizeOut(r) == [row |-> r, first |-> r.epoch * EpochLength, last |-> r.epoch * EpochLength + EpochLength - 1,
